@@ -301,6 +301,13 @@ def r1(prog: Program, chk: Check) -> None:
     if found != 2:
         raise AnalysisError(f"R1: expected 2 reductions in influence_matrix, found {found}")
 
+    backend_scatters(prog, chk, "R1")
+
+
+def backend_scatters(prog: Program, chk: Check, rule: str = "R1") -> None:
+    """Both back ends scatter the reduced dk=0 influence into their zero-initialised tensors:
+    every axis is indexed by the map that sized it, the basis axis by the plain basis index
+    (every basis element is filled, not one representative per class)."""
     # ---- back-end scatters
     for q in ("backends.tempo_backend:BaseTempoBackend.initialize_mps_mpo",
               "backends.pt_tempo_backend:PtTempoBackend.initialize"):
@@ -321,12 +328,14 @@ def r1(prog: Program, chk: Check) -> None:
             chain = []
             cur = st.targets[0]
             while isinstance(cur, ast.Subscript):
-                chain.append(cur.slice)
+                # a[i][j] and a[i, j] address the same axes
+                sl = cur.slice
+                chain.append(list(sl.elts) if isinstance(sl, ast.Tuple) else [sl])
                 cur = cur.value
             base = dotted(cur)
             if base not in zeros_shapes:
                 continue
-            chain = list(reversed(chain))
+            chain = [x for grp in reversed(chain) for x in grp]
             nid = R.du.node_of(st.value)
             n_sc += 1
             shape = zeros_shapes[base]
@@ -336,7 +345,7 @@ def r1(prog: Program, chk: Check) -> None:
                 r_sz = shape[ax] if ax < len(shape) else frozenset()
                 if r_idx != r_sz:
                     bad.append(f"axis {ax}: sized by {_fmt(r_sz)}, indexed by {_fmt(r_idx)}")
-            chk.add("R1", u, f"scatter into {base}: axes "
+            chk.add(rule, u, f"scatter into {base}: axes "
                     f"{[_fmt(R.role(sl, nid)) for sl in chain]} vs sizes {[_fmt(s) for s in shape]}",
                     not bad, "" if not bad else "; ".join(bad), st)
             # the reduced dk=0 influence is indexed by NORTH
@@ -357,17 +366,19 @@ def r1(prog: Program, chk: Check) -> None:
                    and isinstance(x.value, ast.Name) and from_influence(x.value.id, nid)]
             for x in src:
                 r = R.role(x.slice, nid)
-                chk.add("R1", u, f"reduced influence read at {_fmt(r)} class index", r == {NORTH},
+                chk.add(rule, u, f"reduced influence read at {_fmt(r)} class index", r == {NORTH},
                         "" if r == {NORTH} else "the reduced dk=0 influence is indexed with the "
                                                 "wrong map", st)
         if n_sc < 1:
-            raise AnalysisError(f"R1: scatter loop not found in {q}")
+            raise AnalysisError(f"{rule}: scatter loop not found in {q}")
         # destructuring order
         for st in walk_local(u.node):
             if isinstance(st, ast.Assign) and isinstance(st.targets[0], ast.Tuple) \
                     and dotted(st.value) and dotted(st.value).split(".")[-1] in PAIR_NAMES:
                 names = [dotted(e) or "" for e in st.targets[0].elts]
-                chk.add("R1", u, f"{names} = {norm(st.value)}", len(names) == 2, "", st)
+                chk.add(rule, u, f"{names} = {norm(st.value)}", len(names) == 2, "", st)
+
+
 
 
 def r2(prog: Program, chk: Check) -> None:
@@ -376,6 +387,26 @@ def r2(prog: Program, chk: Check) -> None:
     u = prog.unit("bath:_row_degeneracy")
     du = DefUse(u, CFG(u.node, exc_edges=False))
     chk.saw(u, du.cfg)
+    # second accepted family: pairwise comparison of the full rows with an ABSOLUTE tolerance
+    closes = [c for c in walk_local(u.node) if isinstance(c, ast.Call)
+              and (dotted(c.func) or "").split(".")[-1] in ("isclose", "allclose")]
+    if closes:
+        for c in closes:
+            kw = {k.arg: k.value for k in c.keywords}
+            rtol = kw.get("rtol", c.args[2] if len(c.args) > 2 else None)
+            rtol0 = isinstance(rtol, ast.Constant) and rtol.value == 0
+            whole_rows = (dotted(c.func) or "").endswith("allclose") or any(
+                isinstance(x, ast.Call) and isinstance(x.func, ast.Attribute)
+                and x.func.attr == "all" and any(y is c for y in ast.walk(x.func.value))
+                for x in walk_local(u.node))
+            ok = rtol0 and whole_rows
+            chk.add("R2", u, norm(c)[:80], ok,
+                    "rows compared as a whole with an absolute tolerance" if ok else
+                    ("the comparison keeps numpy's default RELATIVE tolerance (1e-5): index pairs "
+                     "whose key rows agree to a relative 1e-5 - levels on a large common offset, "
+                     "nearly degenerate levels - are merged into one class" if not rtol0 else
+                     "rows are not compared as a whole (all key columns)"), c)
+        return
     calls = [c for c in walk_local(u.node) if isinstance(c, ast.Call)
              and (dotted(c.func) or "").split(".")[-1] == "unique"]
     if len(calls) != 1:
@@ -417,5 +448,5 @@ def run(prog: Program, chk: Check) -> None:
                        "representative within a class (every member is valid).")
     chk.assumptions = ["numpy fancy indexing a[idx] selects along axis 0; np.outer(A, B)[i, j] = "
                        "A[i]*B[j]"]
-    r1(prog, chk)
-    r2(prog, chk)
+    chk.call(r1, prog, chk)
+    chk.call(r2, prog, chk)
